@@ -80,6 +80,25 @@ KERNELS = [
          sig=r'bool\s+validate_and_subtract\(\s*const\s+std::size_t\s+n\s*\)\s*noexcept\s*\{',
          tparams=[], params=[('size', '.u64'), ('n', '.u64'), ('valid', '.bool')], ret=None,
          flatten_if=True),
+    # byte-order conversion: the portable branch (no intrinsics) and the
+    # GCC 4.3-4.7 / clang-without-bswap16 16-bit variant.  Free functions of
+    # namespace sbepp::detail (cls=None: searched in the whole file); the
+    # intrinsic `__builtin_bswap32(v)` is a typed input of the kernel (its
+    # value is constrained by the theorem's hypothesis, not modelled here).
+    dict(name='byteswap_portable_u64', cls=None,
+         sig=r'constexpr\s+std::uint64_t\s+byteswap\(\s*std::uint64_t\s+v\s*\)\s*noexcept\s*\{',
+         tparams=[], params=[('v', '.u64')], ret='.u64'),
+    dict(name='byteswap_portable_u32', cls=None,
+         sig=r'constexpr\s+std::uint32_t\s+byteswap\(\s*std::uint32_t\s+v\s*\)\s*noexcept\s*\{',
+         tparams=[], params=[('v', '.u32')], ret='.u32'),
+    dict(name='byteswap_portable_u16', cls=None,
+         sig=r'constexpr\s+std::uint16_t\s+byteswap\(\s*std::uint16_t\s+v\s*\)\s*noexcept\s*\{',
+         tparams=[], params=[('v', '.u16')], ret='.u16'),
+    dict(name='byteswap_u16_via_bswap32', cls=None,
+         sig=r'inline\s+std::uint16_t\s+byteswap\(\s*std::uint16_t\s+v\s*\)\s*noexcept\s*\{',
+         body_contains='__builtin_bswap32',
+         tparams=[], params=[('bswap32_v', '.u32')], ret='.u16',
+         aliases=[(r'__builtin_bswap32\(v\)', 'bswap32_v')]),
 ]
 
 
@@ -129,8 +148,16 @@ def extract(repo, outdir):
     defs = []
     for k in KERNELS:
         try:
-            s, e = cxx.find_class_body(src, k['cls'])
-            body, line = cxx.find_function(src, k['sig'], s, e)
+            s, e = cxx.find_class_body(src, k['cls']) if k['cls'] else (0, None)
+            if k.get('body_contains'):
+                nth = 0
+                while True:
+                    body, line = cxx.find_function(src, k['sig'], s, e, nth=nth)
+                    if k['body_contains'] in body:
+                        break
+                    nth += 1
+            else:
+                body, line = cxx.find_function(src, k['sig'], s, e)
             for pat, rep in k.get('rewrite', []):
                 body = re.sub(pat, rep, body.strip(), flags=re.S)
             if k.get('flatten_if'):
@@ -156,7 +183,7 @@ def extract(repo, outdir):
                 k['name'], binders, params, lean_list(stmts),
                 ('some ' + ret) if ret else 'none')
             defs.append('/-- %s::%s, sbepp.hpp:%d\n%s -/\n%s' % (
-                k['cls'], k['name'], line, cxx.normalise_keep_words(body).replace('-/', '- /'), d))
+                k['cls'] or 'detail', k['name'], line, cxx.normalise_keep_words(body).replace('-/', '- /'), d))
             report['kernels'][k['name']] = {'line': line, 'text': cxx.normalise_keep_words(body)}
         except (cxx.ExtractError, ValueError, AssertionError, KeyError, IndexError) as ex:
             report['failed'][k['name']] = str(ex)
